@@ -11,4 +11,11 @@ KAG == <<97, 46, 103>>
 KAB2 == <<97, 46, 66>>
 SafeKeys == {KA, KAB, KADASH, KADOT, KB}
 BadKeys == {KA, KAION1, KAB2}
+\* histories that begin with three values under one key (put of a list of three): what follows meets ordinals with a hole
+\* in the middle (ioset: rem(key, val)) or at the front (pop), the cases no history of two short operations reaches
+HoleKeys == {KA, KAB}
+Full == <<"x", "y", "z">>
+HolesInit == /\ db = PutSeq({}, KA, 0, Full, TRUE) /\ dict = [k \in Keys |-> IF k = KA THEN Full ELSE <<>>]
+             /\ res = "T" /\ ares = "T" /\ h = <<[op |-> "put", key |-> KA, a |-> Full, res |-> "T", ares |-> "T"]>>
+HolesSpec == HolesInit /\ [][Next]_vars
 ====
